@@ -158,6 +158,10 @@ def run_c13(chk):
                 mfail.append((t, ops, i, "the failed call %s (%s) changed the document" % (ops[i - 1], st),
                               "before: %s\nafter:  %s" % (a[i - 1]["dump"][:500], x["dump"][:500])))
                 break
+            # recorded finding attr-local-part: an attribute node that is not the first of its local part is not found
+            if (ops[i - 1].startswith("ran:") and st == "err:notfound" and " p:x=" in t and " q:x=" in t
+                    and "attr-local-part" in findings):
+                chk.known_finding("attr-local-part " + findings["attr-local-part"]["text"][:400])
             # effect and exception class: the model is the DOM Level 1 reading of the call
             if i < len(m) and (st != m[i]["status"] or x["dump"] != m[i]["dump"]):
                 mfail.append((t, ops, i, "the call %s: effect or exception differs from DOM Level 1 (model)" % ops[i - 1],
